@@ -16,7 +16,7 @@ from engine_g.rs_tables import RsTables, _block
 
 OUT = os.path.join(BUILD, "gen", "core_tables.rs")
 
-LL_GRAMMARS = ["ll_anbn", "ll_k2", "ll_k3", "ll_unite_order", "ll_nullable_tail", "ll_expr", "ll_leftfactor", "ll_k3_nt", "ll_list_k2"]
+LL_GRAMMARS = ["ll_anbn", "ll_k2", "ll_k3", "ll_unite_order", "ll_nullable_tail", "ll_expr", "ll_leftfactor", "ll_k3_nt", "ll_list_k2", "ll_k3_short"]
 LR_GRAMMARS = ["lr_expr", "lr_recursive_start", "lr_nullable_start", "lr_multi_start"]
 NMAX = 4
 
